@@ -53,6 +53,48 @@ def run(prog: Program, chk: Check):
                  f"padding field constructed with type {norm(tn) if tn is not None else None}={tnv!r} / {norm(to) if to is not None else None}")
         pad_vars.add(path_of(n.targets[0]))
     inserted = 0
+    # rebuild idiom: a fresh local list receives, per iteration over the field list, the padding built here and then the field
+    # itself (exactly once, in order), and is stored back whole (`s.fields[:] = laid_out`)
+    rebuilt = None
+    rebuild_store = None
+    for n in walk_local(ca.node):
+        if isinstance(n, ast.Assign) and len(n.targets) == 1 and isinstance(n.value, ast.Name):
+            t = n.targets[0]
+            whole = path_of(t) == f"{sp}.fields" or (isinstance(t, ast.Subscript) and path_of(t.value) == f"{sp}.fields" and isinstance(t.slice, ast.Slice)
+                                                     and t.slice.lower is None and t.slice.upper is None and t.slice.step is None)
+            if whole:
+                inits = [d for d in walk_local(ca.node) if isinstance(d, (ast.Assign, ast.AnnAssign)) and d.value is not None
+                         and path_of(d.targets[0] if isinstance(d, ast.Assign) else d.target) == n.value.id]
+                if len(inits) == 1 and isinstance(inits[0].value, ast.List) and not inits[0].value.elts:
+                    rebuilt, rebuild_store = n.value.id, n
+    if rebuilt is not None:
+        loops = [l for l in walk_local(ca.node) if isinstance(l, ast.For) and isinstance(l.target, ast.Name) and (
+            path_of(l.iter) == f"{sp}.fields" or (isinstance(l.iter, ast.Call) and isinstance(l.iter.func, ast.Name) and l.iter.func.id in ("list", "tuple") and len(l.iter.args) == 1
+                                                 and path_of(l.iter.args[0]) == f"{sp}.fields"))]
+        user_appends = []
+        for c in calls_in(ca.node):
+            if isinstance(c.func, ast.Attribute) and path_of(c.func.value) == rebuilt:
+                if c.func.attr == "append" and len(c.args) == 1 and path_of(c.args[0]) in pad_vars:
+                    inserted += 1
+                    P.ok(fkey(ca, c), where(ca, c), "appends a self-constructed padding field to the rebuilt list")
+                elif c.func.attr == "append" and len(c.args) == 1 and len(loops) == 1 and path_of(c.args[0]) == loops[0].target.id and any(a is loops[0] for a in ancestors(c)):
+                    user_appends.append(c)
+                else:
+                    P.bad(fkey(ca, c), where(ca, c), f"the rebuilt field list receives something other than a padding Field built here or the current field: {norm(c)}")
+        # every iteration appends the user field exactly once, whatever path it takes
+        ok_once = False
+        if len(loops) == 1 and user_appends:
+            head = [x for x in g.nodes if x.kind == "for" and x.ast is loops[0]]
+            ua_ids = {x.id for x in g.nodes if any(c_ in user_appends for c_ in node_calls(x))}
+            if head:
+                starts = [e.dst for e in g.succ[head[0].id] if e.kind == "iter"]
+                lo, hi = flow.count_on_paths(g, ua_ids, starts, [head[0].id], follow=lambda e: e.src != head[0].id and e.kind not in ("exc", "except"))
+                ok_once = (lo, hi) == (1, 1) and not any(isinstance(x, (ast.Break, ast.Continue)) for x in walk_local(loops[0]))
+                # stored back after the loop, on the loop's normal completion
+                ok_once = ok_once and rebuild_store.lineno > loops[0].end_lineno
+        P.decide(ok_once, fkey(ca, "rebuild-keeps-every-field-once"), where(ca, rebuild_store), "every field is appended to the rebuilt list exactly once per iteration, in order; stored back whole after the loop",
+                 "the rebuilt field list can miss, repeat or reorder a user field")
+        # the leading-padding insertion and the trailing append together make the two sites the floor expects
     for c in calls_in(ca.node):
         if isinstance(c.func, ast.Attribute) and path_of(c.func.value) == f"{sp}.fields":
             if c.func.attr in ("insert", "append"):
@@ -67,6 +109,8 @@ def run(prog: Program, chk: Check):
     for n in walk_local(ca.node):
         tg = n.targets if isinstance(n, (ast.Assign, ast.Delete)) else ([n.target] if isinstance(n, (ast.AugAssign, ast.AnnAssign)) else [])
         for t in tg:
+            if n is rebuild_store:
+                continue
             if path_of(t) == f"{sp}.fields" or (isinstance(t, ast.Subscript) and path_of(t.value) == f"{sp}.fields"):
                 P.bad(fkey(ca, n), where(ca, n), f"field list rebound / item-assigned / deleted: {norm(n)}")
             if isinstance(t, ast.Attribute) and t.attr in ("name", "type_name", "type_obj", "length", "length_expression", "length_expanded") and path_of(t.value) not in pad_vars:
@@ -86,7 +130,8 @@ def run(prog: Program, chk: Check):
                  "with auto_pad off a definition must be accepted exactly when it needs no padding")
     for n in g.nodes:
         is_ctor = n.kind == "stmt" and isinstance(n.ast, ast.Assign) and isinstance(n.ast.value, ast.Call) and norm(n.ast.value.func) == "Field"
-        is_ins = any(isinstance(c.func, ast.Attribute) and c.func.attr in ("insert", "append") and path_of(c.func.value) == f"{sp}.fields" for c in node_calls(n))
+        is_ins = any(isinstance(c.func, ast.Attribute) and c.func.attr in ("insert", "append") and (path_of(c.func.value) == f"{sp}.fields" or (
+            rebuilt is not None and path_of(c.func.value) == rebuilt and c.args and path_of(c.args[-1]) in pad_vars)) for c in node_calls(n))
         if is_ctor or is_ins:
             bad = guards.any_path_implies(gs.at(n), guards.parse("self.auto_pad"))
             A.decide(not bad, fkey(ca, n.ast), where(ca, n.ast), "dominated by `self.auto_pad`", f"`{norm(n.ast)[:70]}` reachable with auto_pad off")
